@@ -30,9 +30,16 @@ RTS_KINDS = (6, 7)
 RTS_DECL = "struct Tail { count: u32, items: array<f32> }"
 
 
-def make_source(pairs, used, kinds=None, entry=True):
+PREFIX_DECLS = ["var<private> scratch: f32;", "var<workgroup> tile: array<f32, 4>;",
+                "var<push_constant> pc: vec4<f32>;", "var<private> flag: bool = false;"]
+
+
+def make_source(pairs, used, kinds=None, entry=True, prefix=None):
     lines = []
     body = []
+    if prefix is not None:
+        # a module-scope variable that is no resource, declared BEFORE the resources
+        lines.append(PREFIX_DECLS[prefix % len(PREFIX_DECLS)])
     if kinds and any(k in RTS_KINDS for k in kinds):
         lines.append(RTS_DECL)
     for k, (g, b) in enumerate(pairs):
@@ -148,6 +155,23 @@ def main(tier, replay, t0):
         kinds = [r.randrange(len(KINDS)) for _ in pairs]
         cases.append(("%s%d" % ("nr" if r.random() < 0.15 else "r", k), pairs, r.random() < 0.5,
                       r.choice([None, "all"]), kinds))
+    # many groups: 11-16 dense groups in shuffled declaration order (one of them possibly
+    # missing or doubled)
+    for k in range(24 if tier == "quick" else 300):
+        ng = r.randint(11, 16)
+        pairs = [(g, r.choice([0, 0, 1, 5])) for g in range(ng)]
+        what = r.random()
+        if what < 0.2:
+            pairs.pop(r.randrange(1, ng - 1))
+        elif what < 0.35:
+            pairs.append(r.choice(pairs))
+        r.shuffle(pairs)
+        cases.append(("g%d" % k, pairs, r.random() < 0.5, r.choice([None, "all"]),
+                      [r.choice([0, 3, 4]) for _ in pairs]))
+    prefix_of = {}
+    for (cid, pairs, used, val, kinds) in cases:
+        if cid[0] in "rg" and r.random() < 0.3:
+            prefix_of[cid] = r.randrange(8)
     # derive switches are not part of the numbering contract: the verdict must not depend on them
     ropt = core.rng("c11-options")
     derive = {}
@@ -159,7 +183,8 @@ def main(tier, replay, t0):
     jobs = []
     meta = {}
     for cid, pairs, used, val, kinds in cases:
-        src = make_source(pairs, used, kinds, entry=not cid.startswith("n"))
+        src = make_source(pairs, used, kinds, entry=not cid.startswith("n"),
+                          prefix=prefix_of.get(cid))
         opt = dict(derive.get(cid, {}))
         if val:
             opt["val"] = val
@@ -253,6 +278,15 @@ def main(tier, replay, t0):
                         {g: sorted(v) for g, v in want.items()}:
                     viol.append(Violation("ok-but-wrong-slots", shape,
                                           "declared %r, module has %r" % (want, found), rp))
+                txt = res.get("text", "")
+                pl = txt.find("fn create_pipeline_layout")
+                if pl >= 0:
+                    seq = [int(x) for x in re.findall(
+                        r"BindGroup(\d+)\s*::\s*get_bind_group_layout", txt[pl:])]
+                    if seq != sorted(want):
+                        viol.append(Violation("ok-but-pipeline-layout-order", "n=%d" % len(want),
+                                              "create_pipeline_layout lists the group layouts as "
+                                              "%r, groups are %r" % (seq, sorted(want)), rp))
                 eb = entry_bindings_in_text(res.get("text", ""))
                 if eb is not None and {g: sorted(v) for g, v in eb.items()} != \
                         {g: sorted(v) for g, v in want.items()}:
